@@ -413,6 +413,7 @@ def facts(inspection):
     gtm = []
     for k, v in inspection.GENERIC_TYPE_MAP.items():
         gtm.append((idx[id(k)], idx[id(v)], tri(v, k) == 1))
+    gtm.sort()          # a dict: the order of its entries carries no meaning
     special = {}
     for key, obj in (("tupleId", tuple), ("unionId", typing.Union), ("unionTypeId", types.UnionType),
                      ("optionalId", typing.Optional), ("literalId", typing.Literal), ("finalId", typing.Final),
